@@ -855,7 +855,7 @@ def common_observable(o):
 
 
 def write_evidence(prop, tier, seed, results, violations, knowns, inconcl, nvalid, wall):
-    if os.environ.get('VERIF_REPO', '/repo') != '/repo':
+    if os.environ.get('VERIF_REPO', '/repo') != '/repo' or os.environ.get('VERIF_NO_EVIDENCE'):
         return          # exploratory run against a scratch copy (tools/mutate.py): evidence describes /repo only
     os.makedirs(os.path.join(VERIF, 'evidence'), exist_ok=True)
     obl = sum(r['obligations'] for r in results)
